@@ -38,7 +38,7 @@ Batt(forms, obs, i, s) ==
              fx == obs[i][2]
          IN IF r.k \in {"undef", "oof"} THEN <<"skip", i>>
             ELSE IF ObsFx(r.s.fx) # fx THEN <<"bad", i>>
-            ELSE IF r.k = "val" /\ o = <<"val", Obs(r.v)>> THEN Batt(forms, obs, i + 1, r.s)
+            ELSE IF r.k = "val" /\ o = <<"val", ObsR(r)>> THEN Batt(forms, obs, i + 1, r.s)
             ELSE IF r.k = "err" /\ o[1] = "err" THEN Batt(forms, obs, i + 1, r.s)
             ELSE <<"bad", i>>
 
@@ -56,7 +56,7 @@ Judge(c) ==
          ELSE IF c.out[1] = "budget" THEN <<"skip", "budget">>
          ELSE IF ObsFx(r.s.fx) # c.fx THEN <<"bad", "effects">>
          ELSE IF r.k = "err" /\ c.out[1] # "err" THEN <<"bad", "error-swallowed">>
-         ELSE IF r.k = "val" /\ c.out # <<"val", Obs(r.v)>> THEN <<"bad", "value">>
+         ELSE IF r.k = "val" /\ c.out # <<"val", ObsR(r)>> THEN <<"bad", "value">>
          ELSE LET b == Batt(c.battery, c.bout, 1, [r.s EXCEPT !.failAt = 0]) IN
               IF b[1] = "bad" THEN <<"bad", "battery">> ELSE <<b[1], "battery">>
 
